@@ -101,7 +101,7 @@ def ident_parts(text):
 
 # escape units (so that runs of backslashes next to quotes occur with every parity) and characters that text clean-up code likes to touch
 UNITS = ['\\\\', "\\'", "''", '\\"', 'a', '"', '\\']
-ODD_CHARS = ['\u00a0', '\t', '\r', '\u2028', '\u200b', '\u3000', '\ufeff', '\x0b', '\x0c', '\u00ad', '\u202e']
+ODD_CHARS = ['\u2018', '\u2019', '\u201c', '\u201d', '\u00a0', '\t', '\r', '\u2028', '\u200b', '\u3000', '\ufeff', '\x0b', '\x0c', '\u00ad', '\u202e']
 
 ID_FORMS = ['abc', 'aBc', 'ABC', '`abc`', '`select`', '`a b`', '`a.b`', '1a', '`1a`', '`é`', '_x', 'a$b', '`group by`', '`A B`', '`a-b`', '`1`']
 DQ_FORMS = ['"abc"', '"a.b"', '"a b"', '"select"', '"A.b.C"']   # double-quoted parts (where a dialect reads them as names)
@@ -185,7 +185,7 @@ class CHECK(Check):
             if not any(c in v for c in '\'"\\'):
                 out.append(('mysql', 'enc_const', None, v, None))
                 out.append(('sqlite', 'enc_const', None, v, None))
-        for v in [0, 7, -3, 10 ** 30, 1.5, 0.5, -2.25, True, False, None, 52.5200066, 3.14159265358979, 0.1, 100.0, 123456.789, 1e-05, 1e-07, 1e+20, 2.5e-10, 1.5e+300]:
+        for v in [0, 7, -3, 10 ** 30, 1.5, 0.5, -2.25, True, False, None, 52.5200066, 3.14159265358979, 0.1, 100.0, 123456.789, 1e-05, 1e-07, 1e+20, 2.5e-10, 1.5e+300, 1 / 81000, 1.2345678e-12, 5e-18, 4.9e-324, 1e-300, 1.7976931348623157e+308, 2 ** 0.5 * 1e-9, -3.3e-15, 1e+16, 123456789012345680.0]:
             for d in gsx.DIALECTS:
                 out.append((d, 'enc_num', None, v, None))
         part_vals = ['abc', 'aBc', 'select', 'a b', 'a.b', '1a', 'é', 'group by', 'primary_key', 'x-y', '1', 'from', 'order', 'KEY', 'knowledge_base', 'nulls first']
@@ -193,6 +193,12 @@ class CHECK(Check):
             for tup in itertools.product(part_vals, repeat=n):
                 for d in gsx.DIALECTS:
                     out.append((d, 'enc_ident', None, list(tup), None))
+        twins = [('strasse', 'stra\u00dfe'), ('STRASSE', 'stra\u00dfe'), ('fuss', 'Fu\u00df'), ('fi', '\ufb01'), ('FI', '\ufb01'), ('i', '\u0130'), ('I', '\u0131'), ('k', '\u212a'),
+                 ('abc', 'ABC'), ('select1', 'SELECT'), ('from_', 'FROM'), ('a', 'a b'), ('ab', 'a.b'), ('x', 'x '), ('e', '\u00e9'), ('st', '\ufb06')]
+        for a_, b_ in twins:
+            for d in gsx.DIALECTS:
+                out.append((d, 'enc_ident_seq', None, [a_, b_], None))
+                out.append((d, 'enc_ident_seq', None, [b_, a_], None))
         for v in ['v', 'v.w', 'a b', 'A', '$x', 'a-b', 'select', 'abc\n', 'a\nb', 'a ', 'a\tb', 'a.b\n', 'a1', 'aé']:   # names the lexers can express (first character a letter, _ . or $)
             for sysv in (False, True):
                 for d in ('mindsdb', 'mysql'):
@@ -417,6 +423,14 @@ class CHECK(Check):
         if out.kind != 'ok' or not isinstance(out.value.targets[0], A.Identifier) or [str(p) for p in out.value.targets[0].parts] != list(parts):
             res.violation(f'{d}|encode|ident|reparse-other-parts|{cls}', f'Identifier(parts={parts!r}) prints {s!r}; re-parse: {out.value.targets[0].to_tree() if out.kind == "ok" else str(out.exc)[:80]}')
         return res
+
+    def run_enc_ident_seq(self, res, d, m, q, names, pos):
+        """print one name, then another one that some normalisation (upper / lower / casefold) maps onto it: the second must still be right"""
+        try:
+            A.Identifier(parts=[names[0]]).to_string()
+        except Exception:
+            pass
+        return self.run_enc_ident(res, d, m, q, ['t', names[1]], pos)
 
     def run_enc_var(self, res, d, m, q, v, sysv):
         s = A.Variable(v, is_system_var=sysv).to_string()
